@@ -26,8 +26,12 @@ The code is modelled **as it is** (default features: one process-wide arena, no 
 * `regCleanup`    — `Owner::on_cleanup` (silently does nothing without a current owner).
 * `newItem`       — `ArenaItem::new_with_storage`: arena insert, then `Owner::register` on the
                     current owner if there is one (otherwise nobody ever removes the entry).
-* `provide/lookup/useCtx/takeCtx` — `provide_context`, `Owner::with_context` (own map, then the
-                    chain of `parent.upgrade()`), `use_context`, `take_context` (context.rs).
+* `provide/lookup/useCtx/takeCtx/updateCtx` — `provide_context`, `Owner::with_context` (own map, then
+                    the chain of `parent.upgrade()`), `use_context` (= `with_context(Clone::clone)`;
+                    `expect_context` = `use_context` + panic, `with_context` itself: the same lookup —
+                    the harness calls each API, the model has one `useCtx`), `take_context`
+                    (removes the entry of the *nearest* provider), `update_context` (changes it in
+                    place) (context.rs).
 * `Frame`, `stepFrame`, `runFrames` — `impl Cleanup for RwLock<OwnerInner>` and
                     `impl Drop for OwnerInner` as a small-step machine whose stack is the call stack:
     - `visit o`  = `cleanup()`: `mem::take` of `cleanups`, `nodes`, `children` **first**, then
@@ -341,6 +345,15 @@ def takeCtx (st : Core) (ty : Nat) : Core :=
     { st with log := st.log ++ [Ev.t ty (some e.val)], staleHit := st.staleHit || e.stale }
   | none => { st with log := st.log ++ [Ev.t ty none] }
 
+/-- `update_context(|c| { c.0 += d; c.0 })`: the nearest provider's value is changed in place (the
+log shows the new value) -/
+def updateCtx (st : Core) (ty : Nat) (d : Int) : Core :=
+  match lookupCur st ty with
+  | some (o, e) =>
+    let st := st.modOwner o fun r => { r with contexts := ctxInsert r.contexts ⟨ty, e.val + d, e.stale⟩ }
+    { st with log := st.log ++ [Ev.u ty (some (e.val + d))], staleHit := st.staleHit || e.stale }
+  | none => { st with log := st.log ++ [Ev.u ty none] }
+
 /-! ## cleanup / drop as a small-step machine -/
 
 inductive Frame where
@@ -539,6 +552,8 @@ inductive BOp where
   | provide (ty : Nat) (v : Nat)
   | use (ty : Nat)
   | take (ty : Nat)
+  /-- `update_context` adding `d` -/
+  | update (ty : Nat) (d : Nat)
   | effect (b : Nat)
   | memo (b : Nat)
   | newOwner
@@ -963,6 +978,7 @@ def execWith (ex : St → BOp → St) (st : St) : BOp → St
   | .provide ty v => st.lift (provide · ty v)
   | .use ty => st.lift (useCtx · ty)
   | .take ty => st.lift (takeCtx · ty)
+  | .update ty d => st.lift (updateCtx · ty d)
   | .effect b => newEffect st b EffKind.plain
   | .memo b => newMemo st b
   | .newOwner => newOwnerHandle st
